@@ -42,15 +42,3 @@ Definition miter (Ca : Circuit) (Cbo : option Circuit) (So Eo : option (list str
   lift_out (g4, o) (λ g4,
   lift_out (add_each (λ g n, add_g g (pre "dif" n) Xor [pre "c0" n; pre "c1" n] ["sat"] af_default) g4 E) (λ g5,
   Ok (with_g M2 g5)))))).
-
-(* ---- closed form of the result (specification side; proved equivalent to the semantics in MiterProofs) ---- *)
-(* the copy of C under prefix p: io stripped, tied startpoints driven by the new input of the same name *)
-Definition tie_info (S : gset string) (n : string) (i : ninfo) : ninfo :=
-  if bool_decide (n ∈ S) then upd_fi (λ s, {[n]} ∪ s) i else i.
-Definition copy_of (p : string) (S : gset string) (c : circuit) : circuit :=
-  kmap (pre p) (map_imap (λ n i, Some (tie_info S n (upd_fi (set_map (pre p)) (strip_info i)))) c).
-Definition tie_inputs (S : gset string) : circuit := gset_to_gmap (mk_node Input false ∅) S.
-Definition dif_nodes (E : gset string) : circuit :=
-  kmap (pre "dif") (map_imap (λ e _, Some (mk_node Xor false {[pre "c0" e; pre "c1" e]})) (gset_to_gmap () E)).
-Definition sat_node (E : list string) : circuit :=
-  {[ "sat" := mk_node (sat_type E) true (list_to_set (pre "dif" <$> E)) ]}.
